@@ -77,7 +77,7 @@ class C08(Prop):
                     if op["read"].startswith("ok:"):
                         reading = float(int(op["read"][3:]))
                 else:
-                    if op.get("exit", "0") == "0" and op.get("pv", "err") != "err":
+                    if op.get("exit", "0") == "0" and op.get("start", "1") == "1" and op.get("pv", "err") != "err":
                         v = bits2f(int(op["pv"][4:], 16))
                         if is_finite(v):
                             reading = v
